@@ -7,6 +7,8 @@ import PygModel.Fill
 import PygProofs.Lemmas.FillLemmas
 import PygProofs.Lemmas.FillIndep
 import PygProofs.Lemmas.FillRows
+import PygProofs.Lemmas.FillEdge
+import PygProofs.Lemmas.FillAliasLemmas
 
 namespace Pyg.Props.C12
 open Pyg Pyg.Fill
@@ -136,6 +138,69 @@ theorem fnna_rows (lim : Option Nat) (f : Frame) (hs : f.Sorted) :
       have := hbefore j hj
       simpa using this
 
+
+/-! ### `nona(x, edge = ±1)`: only the all-NaN rows at ONE end go, interior all-NaN rows stay -/
+
+/-- `edge = -1` ("cut only historic values") is exactly the method 'fnna': `df_slice(df, lb = first surviving label, '[]')` -/
+theorem nona_edge_first_eq_fnna (lim : Option Nat) (f : Frame) : nona (some (-1)) f = step lim f .fnna := by
+  have hhead : ((List.range f.nrows).filter f.rowValid).head? = (List.range f.nrows).find? f.rowValid := List.head?_filter ..
+  simp only [nona, step, Frame.firstValidRowTime, Frame.gather]
+  cases hfind : (List.range f.nrows).find? f.rowValid with
+  | none =>
+    rw [hfind] at hhead
+    have : (List.range f.nrows).filter f.rowValid = [] := List.head?_eq_none_iff.mp hhead
+    simp [this]
+  | some p0 =>
+    rw [hfind] at hhead
+    obtain ⟨tl, htl⟩ : ∃ tl, (List.range f.nrows).filter f.rowValid = p0 :: tl := by
+      cases hl : (List.range f.nrows).filter f.rowValid with
+      | nil => rw [hl] at hhead; cases hhead
+      | cons a tl => rw [hl] at hhead; simp at hhead; exact ⟨tl, by rw [hhead]⟩
+    simp [htl]
+
+/-- `edge = -1` on a sorted index: the result is the input from its first row holding a non-NaN cell (position `p0`) on -
+the leading all-NaN rows are dropped, every later row (all-NaN or not) is kept; nothing is left when no row is valid -/
+theorem nona_edge_first (f : Frame) (hs : f.Sorted) :
+    ∃ g p0, nona (some (-1)) f = .ok g ∧ g.rows = f.rows.drop p0 ∧ g.names = f.names ∧ p0 ≤ f.nrows ∧
+      (∀ j, j < p0 → f.rowValid j = false) ∧ (p0 < f.nrows → f.rowValid p0 = true) := by
+  rw [nona_edge_first_eq_fnna Option.none f]
+  exact fnna_rows Option.none f hs
+
+/-- `edge = 1` ("cut only latest values") on a sorted index: the result is the first `q` rows of the input, where row `q - 1`
+is the LAST row holding a non-NaN cell - the trailing all-NaN rows are dropped, every earlier row (all-NaN or not) is kept;
+nothing is left (`q = 0`) when no row is valid -/
+theorem nona_edge_last (f : Frame) (hs : f.Sorted) :
+    ∃ g q, nona (some 1) f = .ok g ∧ g.rows = f.rows.take q ∧ g.names = f.names ∧ q ≤ f.nrows ∧
+      (∀ j, q ≤ j → j < f.nrows → f.rowValid j = false) ∧ (0 < q → f.rowValid (q - 1) = true) := by
+  by_cases hne : (List.range f.nrows).filter f.rowValid = []
+  · refine ⟨f.gather [], 0, by simp [nona, hne, Frame.gather], by simp [Frame.rows_gather], Frame.names_gather _ _,
+      Nat.zero_le _, ?_, by omega⟩
+    intro j _ hj
+    cases hv : f.rowValid j with
+    | false => rfl
+    | true =>
+      have : j ∈ (List.range f.nrows).filter f.rowValid := List.mem_filter.mpr ⟨by simpa using hj, hv⟩
+      rw [hne] at this; cases this
+  · obtain ⟨hq1, hq2, hq3⟩ := Frame.getLast_filter_range f.nrows f.rowValid hne
+    generalize hp : ((List.range f.nrows).filter f.rowValid).getLast hne = p at hq1 hq2 hq3
+    have hub : ((f.gather ((List.range f.nrows).filter f.rowValid)).idx).getLastD 0 = f.idx.getD p 0 := by
+      simp only [Frame.gather, List.getLastD_eq_getLast?, List.getLast?_map, List.getLast?_eq_some_getLast hne, hp]
+      rfl
+    have hnemp : (f.gather ((List.range f.nrows).filter f.rowValid)).idx.isEmpty = false := by
+      simp [Frame.gather, hne]
+    refine ⟨f.gather ((List.range f.nrows).take (p + 1)), p + 1, ?_, Frame.rows_gather_take f (p + 1),
+      Frame.names_gather _ _, by omega, fun j hj hjn => hq3 j (by omega) hjn, fun _ => by simpa using hq2⟩
+    simp only [nona, hnemp, hub]
+    rw [Frame.filter_label_le f hs p hq1]
+    simp
+
+/-- any other `edge` on an object with a valid row: the code falls off the end of `_nona` (returns `None`); the model answers
+`err Other` (not generated) -/
+theorem nona_edge_unknown (f : Frame) (e : Int) (he : e ≠ 1 ∧ e ≠ -1)
+    (hne : (List.range f.nrows).filter f.rowValid ≠ []) : nona (some e) f = .error .other := by
+  have : (f.gather ((List.range f.nrows).filter f.rowValid)).idx.isEmpty = false := by simp [Frame.gather, hne]
+  simp [nona, this, he.1, he.2]
+
 /-! ### 'ffill_na' / 'ffill_0' -/
 
 /-- on a sorted index: forward fill (with the limit) up to the last valid observation (position `p`),
@@ -213,6 +278,42 @@ theorem fillna_wellformed (ms : List Method) (lim : Option Nat) (f g : Frame) (h
   have := fillna_same lim ms (f := f) (g := f) ⟨rfl, rfl, hs, hs, hr⟩
   rw [h] at this
   exact ⟨this.sf, this.rf⟩
+
+
+/-! ### "the input object is not modified": the object store under `_df_fillna` (PygModel/FillAlias.lean)
+
+Cell 0 of the store is the caller's object, `res = df` points to it; pandas calls that return new objects append a cell and
+rebind `res`; the one item assignment of the code, `res[res.index>last_valid] = invalid`, writes INTO the cell `res` points to. -/
+
+/-- whatever the method list: the caller's object (cell 0) holds at the end what it held at the start, and EVERY item
+assignment went into a cell allocated during this call (`0 < w`: never the caller's object) - the object written is always
+the copy `res.ffill()` made just before -/
+theorem input_not_modified (series : Bool) (ms : List Method) (lim : Option Nat) (df : Frame) (s : FillAlias.Store)
+    (h : FillAlias.call series ms lim df = .ok s) :
+    s.cells[0]? = some df ∧ (∀ w ∈ s.writes, 0 < w ∧ w < s.cells.length) ∧ s.res < s.cells.length :=
+  let i := FillAlias.inv_run series lim ms _ s (FillAlias.inv_init df) h
+  ⟨i.input, i.fresh, i.bound⟩
+
+/-- the store refines the pure model: the object the function returns (`res`) holds exactly `fillna ms lim df`, and the two
+fail together.  (`series`: the 1-d branch with the in-place tail assignment; a Series has one column.) -/
+theorem store_value (series : Bool) (ms : List Method) (lim : Option Nat) (df : Frame)
+    (h1 : series = true → ∃ c, df.cols = [c]) :
+    match FillAlias.call series ms lim df, fillna ms lim df with
+    | .ok s, .ok g => FillAlias.cur s = g
+    | .error e, .error e' => e = e'
+    | _, _ => False := by
+  have := FillAlias.run_sim series lim ms { cells := [df], res := 0, writes := [] } (by simp) h1
+  simp only [FillAlias.call]
+  have hc : FillAlias.cur { cells := [df], res := 0, writes := [] } = df := rfl
+  rw [hc] at this
+  cases hr : List.foldlM (FillAlias.runStep series lim) { cells := [df], res := 0, writes := [] } ms <;>
+    cases hf : fillna ms lim df <;> rw [hr, hf] at this <;> simp [FillAlias.Sim] at this ⊢
+  · exact this
+  · exact this.1
+
+/-- no method: the function returns THE INPUT OBJECT itself (`df_fillna(x, None) is x`), nothing is allocated or written -/
+theorem no_method_returns_input (series : Bool) (lim : Option Nat) (df : Frame) :
+    FillAlias.call series [] lim df = .ok { cells := [df], res := 0, writes := [] } := rfl
 
 /-! ### method LISTS never change a non-NaN cell -/
 
@@ -368,5 +469,20 @@ example : let f : Frame := { idx := [1, 2, 3, 4], cols := [("a", [Option.none, s
 example : let f : Frame := { idx := [3, 5, 9, 10], cols := [("a", [Option.none, some 1, Option.none, Option.none])] }
     f.Sorted ∧ f.Rect ∧ f.cols ≠ [] ∧
     (fillnaArr [.fnna, .ffill0] Option.none f.vals).toOption = some [[some 1, some 0, some 0]] := by decide
+
+/-- `nona_edge_last` / `nona_edge_first`: an interior all-NaN row (label 3) stays, only the trailing / leading ones go -/
+example : let f : Frame := { idx := [1, 2, 3, 4, 5], cols := [("a", [Option.none, some 1, Option.none, some 2, Option.none]),
+                                                              ("b", [Option.none, Option.none, Option.none, some 5, Option.none])] }
+    f.Sorted ∧
+    (nona (some 1) f).toOption.map (·.idx) = some [1, 2, 3, 4] ∧
+    (nona (some (-1)) f).toOption.map (·.idx) = some [2, 3, 4, 5] ∧
+    (nona Option.none f).toOption.map (·.idx) = some [2, 4] := by decide
+
+/-- `input_not_modified` / `store_value` on the in-place branch: 'ffill_0' on a Series writes into cell 1 (the `ffill` copy) -/
+example : let df : Frame := { idx := [1, 2, 3, 4], cols := [("", [some 1, Option.none, some 3, Option.none])] }
+    (FillAlias.call true [.ffill0] Option.none df).toOption.map (fun s => s.cells[0]?) = some (some df) ∧
+    (FillAlias.call true [.ffill0] Option.none df).toOption.map (fun s => (s.res, s.writes)) = some (1, [1]) ∧
+    (FillAlias.call true [.ffill0] Option.none df).toOption.map (fun s => (FillAlias.cur s).cols) =
+      some [("", [some 1, some 1, some 3, some 0])] := by decide
 
 end Pyg.Props.C12
